@@ -2,6 +2,7 @@
 From Coq Require Import List NArith Bool Arith.
 From Verif Require Import C11.Model_C11 C11.Proofs_C11 C05.Model_C05 C05.Proofs_C05.
 From Verif Require C11.ModelP_C11 C11.ProofsP2_C11.
+From Verif Require Import C05.ProofsL_C05.
 Import ListNotations.
 
 (* A complete, uninterrupted unit phase (any number of workers >= 1, any interleaving, any behaviour of
@@ -81,3 +82,13 @@ Proof.
     exfalso; apply (Nat.lt_irrefl 0); apply Nat.lt_le_trans with (m := ModelP_C11.worst_scenario (ModelP_C11.pscript s)); auto.
 Qed.
 Print Assumptions C05_stateful_failure_reaches_phase_partial.
+
+(* ---- runs that stop at the failure limit ----
+   The limit flag can only be raised through a failed / errored ScenarioFinished the consumer has already yielded: whenever
+   the limit is reached - any configuration, number of workers, behaviour, interleaving - a failure is in the reported stream.
+   (Raising the flag from the worker that produced the event would lose it: the consumer leaves on has_to_stop.) *)
+Theorem C05_limit_reached_means_failure_reported : forall c sched n os,
+  let s := run c sched (init n os) in
+  limit s = true -> existsb counts_as_failure (trace s) = true.
+Proof. exact limit_implies_failure_reported. Qed.
+Print Assumptions C05_limit_reached_means_failure_reported.
